@@ -111,9 +111,14 @@ contract(T + ".replicate", "C20", params={"mutations": "opt:dict:str,any"}, ghos
          callbacks=dict(APPROVE, **{"Genome.get_hash": {"function": "genome_hash", "returns": "str"}}),
          options={"opaque_ctor": ["Genome"], "opaque_any_methods": True}, modifies=[],
          loops={"for (name, state) in self._expression.items()": {"invariant": ["True"]},
-                "for (gene_name, new_value) in mutations.items()": {"invariant": ["True"]},
+                # every requested mutation is ATTEMPTED on the child (authorised or not: mutate() logs the refused ones as unapproved, see its contract)
+                "for (gene_name, new_value) in mutations.items()": {"invariant": ["True"], "exhaustive": True,
+                                                                     "step": {"each-requested-mutation-is-attempted": "calls_in_iter('.mutate') == 1 and "
+                                                                                                                      "arg_in_iter('.mutate', 0) == gene_name"},
+                                                                     "property_level": ["each-requested-mutation-is-attempted"]},
                 "for gene_name in child._genes": {"invariant": ["True"]}},
          ensures={"parent-untouched": "value_unchanged(self, old(self), q) and len(self._mutations) == len(old(self)._mutations)",
+                  "requested-mutations-are-never-skipped": "implies(mutations is not None and len(mutations) > 0, reached_loop('in mutations.items()'))",
                   "child-is-a-new-genome": "result is not self"})
 
 
